@@ -55,7 +55,7 @@ package explain
 //@   modifies pb.units, pb.units[*], pb.tagged[*]
 //@   ensures  sound:    result ==> !(old(agreesU(A, pb.units)) && H(pb, A) && !csat(clause, len(clause), A))
 //@   ensures  restored: len(pb.units) == old(len(pb.units)) && forall(v, 0, len(pb.units), pb.units[v] == old(pb.units[v]))
-//@   ensures  freshU:   fresh(pb.units) || len(pb.units) == 0
+//@   ensures  freshU:   fresh(pb.units)
 //@   ensures  mono:     forall(i, 0, pb.NbClauses, old(pb.tagged[i]) ==> pb.tagged[i])
 //@   loop 1
 //@     invariant idx:   0 <= rangei && rangei <= len(clause)
@@ -67,7 +67,7 @@ package explain
 //@ func parseClause
 //@   requires nonempty: len(fields) >= 1
 //@   ensures  nz:    result1 == nil ==> forall(k, 0, len(result0), result0[k] != 0)
-//@   ensures  fresh: len(result0) > 0 ==> fresh(result0)
+//@   ensures  fresh: result1 == nil ==> fresh(result0)
 //@   loop 1
 //@     invariant idx:   0 <= rangei && rangei <= len(fields)
 //@     invariant nz:    forall(k, 0, len(clause), clause[k] != 0)
@@ -86,22 +86,33 @@ package explain
 //@   requires entry: entryPb(pb)
 //@   modifies pb.Clauses, pb.Clauses[*], pb.tagged, pb.units, pb.units[*]
 //@   assume-input after-call parseClause#1 certRange: litsIn(result0, pb.NbVars)
-//@   assert after-call unsat#1 emptyRefutes: result && len(clause) == 0 ==> !(old(agreesU(A, pb.units)) && orig(pb, A))
+//@   assert body-end 1 sameHdr: forall(i, 0, prev(len(pb.Clauses)), pb.Clauses[i] == prev(pb.Clauses[i]))
+//@   assert body-end 1 sameRows: forall(i, 0, prev(len(pb.Clauses)), forall(k, 0, len(pb.Clauses[i]), pb.Clauses[i][k] == prev(pb.Clauses[i][k])))
+//@   assert body-end 1 point: forall(i, 0, prev(len(pb.Clauses)), prev(csat(pb.Clauses[i], len(pb.Clauses[i]), A)) ==> csat(pb.Clauses[i], len(pb.Clauses[i]), A))
+//@   assert body-end 1 lastLine: len(pb.Clauses) == prev(len(pb.Clauses)) + 1 && old(agreesU(A, pb.units)) && old(orig(pb, A)) ==> csat(pb.Clauses[len(pb.Clauses)-1], len(pb.Clauses[len(pb.Clauses)-1]), A)
+//@   assert body-end 1 keepLines: prev(lines(pb, A)) ==> forall(i, pb.NbClauses, prev(len(pb.Clauses)), csat(pb.Clauses[i], len(pb.Clauses[i]), A))
+//@   assert before-call unsat#1 origPoint: forall(i, 0, pb.NbClauses, old(csat(pb.Clauses[i], len(pb.Clauses[i]), A)) ==> csat(pb.Clauses[i], len(pb.Clauses[i]), A))
+//@   assert before-call unsat#1 origNow: old(orig(pb, A)) ==> orig(pb, A)
+//@   assert after-call unsat#1 hline: result && old(agreesU(A, pb.units)) && old(orig(pb, A)) ==> csat(clause, len(clause), A)
+//@   assert after-call unsat#1 emptyRefutes: result && len(clause) == 0 ==> !(old(agreesU(A, pb.units)) && old(orig(pb, A)))
 //@   ensures  restored: len(pb.Clauses) == old(len(pb.Clauses)) && pb.NbClauses == old(pb.NbClauses) && keptPb(pb, pb.NbClauses)
 //@   ensures  units:    len(pb.units) == old(len(pb.units)) && forall(v, 0, len(pb.units), pb.units[v] == old(pb.units[v]))
 //@   loop 1
 //@     invariant shape: wfPb(pb) && pb.NbClauses == old(pb.NbClauses) && pb.NbVars == old(pb.NbVars) && litsOK(pb) && sepPb(pb) && tri(pb.units)
+//@     invariant own:   grown(pb.units) && grown(pb.Clauses)
 //@     invariant kept:  keptPb(pb, pb.NbClauses)
 //@     invariant units: len(pb.units) == old(len(pb.units)) && forall(v, 0, len(pb.units), pb.units[v] == old(pb.units[v]))
-//@     invariant cons:  old(agreesU(A, pb.units)) && orig(pb, A) ==> lines(pb, A)
+//@     invariant cons:  old(agreesU(A, pb.units)) && old(orig(pb, A)) ==> lines(pb, A)
 
 //@ func (*Problem).initTagged
 //@   requires shape: pb != nil && 0 <= pb.NbClauses && len(pb.Clauses) <= pb.NbClauses
 //@   modifies pb.tagged
 //@   ensures  shape: len(pb.tagged) == pb.NbClauses && fresh(pb.tagged)
+//@   ensures  units: forall(i, 0, len(pb.Clauses), pb.tagged[i] <==> len(pb.Clauses[i]) == 1)
 //@   loop 1
 //@     invariant idx: 0 <= rangei && rangei <= len(pb.Clauses)
 //@     invariant shape: len(pb.tagged) == pb.NbClauses && fresh(pb.tagged)
+//@     invariant units: forall(i, 0, rangei, pb.tagged[i] <==> len(pb.Clauses[i]) == 1)
 
 // UnsatChan: same statement as Unsat for the channel-based entry point. When the empty
 // line is accepted the function returns true at once: then no assignment agreeing with the
@@ -112,11 +123,20 @@ package explain
 //@   requires entry: entryPb(pb)
 //@   modifies pb.Clauses, pb.Clauses[*], pb.tagged, pb.units, pb.units[*]
 //@   assume-input after-call parseClause#1 certRange: litsIn(result0, pb.NbVars)
-//@   assert after-call unsat#1 emptyRefutes: result && len(clause) == 0 ==> !(old(agreesU(A, pb.units)) && orig(pb, A))
+//@   assert body-end 1 sameHdr: forall(i, 0, prev(len(pb.Clauses)), pb.Clauses[i] == prev(pb.Clauses[i]))
+//@   assert body-end 1 sameRows: forall(i, 0, prev(len(pb.Clauses)), forall(k, 0, len(pb.Clauses[i]), pb.Clauses[i][k] == prev(pb.Clauses[i][k])))
+//@   assert body-end 1 lastLine: len(pb.Clauses) == prev(len(pb.Clauses)) + 1 && old(agreesU(A, pb.units)) && old(orig(pb, A)) ==> csat(pb.Clauses[len(pb.Clauses)-1], len(pb.Clauses[len(pb.Clauses)-1]), A)
+//@   assert body-end 1 point: forall(i, 0, prev(len(pb.Clauses)), prev(csat(pb.Clauses[i], len(pb.Clauses[i]), A)) ==> csat(pb.Clauses[i], len(pb.Clauses[i]), A))
+//@   assert body-end 1 keepLines: prev(lines(pb, A)) ==> forall(i, pb.NbClauses, prev(len(pb.Clauses)), csat(pb.Clauses[i], len(pb.Clauses[i]), A))
+//@   assert before-call unsat#1 origPoint: forall(i, 0, pb.NbClauses, old(csat(pb.Clauses[i], len(pb.Clauses[i]), A)) ==> csat(pb.Clauses[i], len(pb.Clauses[i]), A))
+//@   assert before-call unsat#1 origNow: old(orig(pb, A)) ==> orig(pb, A)
+//@   assert after-call unsat#1 hline: result && old(agreesU(A, pb.units)) && old(orig(pb, A)) ==> csat(clause, len(clause), A)
+//@   assert after-call unsat#1 emptyRefutes: result && len(clause) == 0 ==> !(old(agreesU(A, pb.units)) && old(orig(pb, A)))
 //@   ensures  restored: len(pb.Clauses) == old(len(pb.Clauses)) && pb.NbClauses == old(pb.NbClauses) && keptPb(pb, pb.NbClauses)
 //@   ensures  units:    len(pb.units) == old(len(pb.units)) && forall(v, 0, len(pb.units), pb.units[v] == old(pb.units[v]))
 //@   loop 1
 //@     invariant shape: wfPb(pb) && pb.NbClauses == old(pb.NbClauses) && pb.NbVars == old(pb.NbVars) && litsOK(pb) && sepPb(pb) && tri(pb.units)
+//@     invariant own:   grown(pb.units) && grown(pb.Clauses)
 //@     invariant kept:  keptPb(pb, pb.NbClauses)
 //@     invariant units: len(pb.units) == old(len(pb.units)) && forall(v, 0, len(pb.units), pb.units[v] == old(pb.units[v]))
-//@     invariant cons:  old(agreesU(A, pb.units)) && orig(pb, A) ==> lines(pb, A)
+//@     invariant cons:  old(agreesU(A, pb.units)) && old(orig(pb, A)) ==> lines(pb, A)
